@@ -236,6 +236,13 @@ def run(tier):
             if tinc[name] is None or list(tinc[name].variable) != list(sinc[mapping[name]].variable):
                 bad = "underground block %s does not hold the state of %s" % (name, mapping[name])
                 break
+        if not bad:
+            # ... as a table of its own: one entry per target block, in the target's block order, each carrying its own name
+            listed = [b.block for b in tinc]
+            if listed != list(tgt.block_name_list):
+                bad = "the transferred table lists %r..., the target's blocks are %r..." % (listed[:6], list(tgt.block_name_list)[:6])
+            elif len(set(id(b) for b in tinc)) != len(listed):
+                bad = "two target blocks share one state object"
         rule = e["incon"]
         if not bad and natm > 0:
             sat = [list(sinc[b].variable) for b in src.block_name_list[:src.num_atmosphere_blocks]]
